@@ -1,6 +1,7 @@
 //! Correspondence harness: runs the real crate (hooks on) on generated inputs
 //! and prints JSON that the ./check driver turns into Coq case files.
 mod est;
+mod exp01h;
 mod fy;
 mod invhash;
 mod jsonp;
@@ -27,6 +28,8 @@ fn main() {
         "est-cases" => est::cases(rest),
         "pmh-cases" => pmh::cases(rest),
         "sk-cases" => sk::cases(rest),
+        "exp01-cases" => exp01h::cases(rest),
+        "exp01-law" => exp01h::law(rest),
         "sig-cases" => sigs::cases(rest),
         "sig-stress" => sigs::stress(rest),
         "json-cases" => jsonp::cases(rest),
